@@ -14,6 +14,7 @@ import (
 	"encoding/json"
 	"fmt"
 	"os"
+	"time"
 )
 
 type input struct {
@@ -128,6 +129,9 @@ func Schedules(n int)    {}
 func NoMerge(b bool)     {}
 func ExpectPanic()       {}
 func Note(msg string)    {}
+
+// Quiesce waits until all other goroutines have finished or are blocked (natively: a short sleep).
+func Quiesce() { time.Sleep(50 * time.Millisecond) }
 func Tier() int {
 	if os.Getenv("VERIF_TIER") == "thorough" {
 		return 1
